@@ -342,43 +342,7 @@ func checkC03(c *Ctx) Meta {
 			c.Bad("C03-ATOMIC", "ChangePrivPassphrase:all-keystores-one-transaction", c.Pos(f.Pos()), "the private passphrase is not changed for all keystores in one transaction: keystores can end up under different passphrases")
 		}
 	}
-	if f := c.MustFn("C03-ATOMIC", "poc/wallet/keystore", "(*KeystoreManagerForPoC).Unlock"); f != nil {
-		key := "Unlock:all-or-nothing"
-		var use *ssa.Call
-		for _, cl := range callsIn(f, "(*"+tKMC+").useKeystore") {
-			if blockReentered(f, cl) {
-				use = cl
-			}
-		}
-		var setUnlocked []ssa.Instruction
-		for _, a := range fieldAccesses(f) {
-			if a.Kind == "store" && a.Type == tKMC && a.Field == "unlocked" {
-				setUnlocked = append(setUnlocked, a.In)
-			}
-		}
-		ok := use != nil && len(setUnlocked) > 0
-		if ok {
-			// a failed useKeystore returns; unlocked=true unreachable on its error edge
-			r := reach(f, use, errorEdgeCut(f, use, false), nil)
-			for _, s := range setUnlocked {
-				if r(s) {
-					ok = false
-				}
-			}
-			rangeOK := false
-			allInstrs(f, func(in ssa.Instruction) {
-				if rg, isR := in.(*ssa.Range); isR && backSlice(rg.X).hasField(tKMC, "managedKeystores") {
-					rangeOK = true
-				}
-			})
-			ok = ok && rangeOK && backSlice(use.Call.Args[2]).hasParam(f, "privPassphrase")
-		}
-		if ok {
-			c.OK("C03-ATOMIC", key, c.Pos(f.Pos()), "every keystore is unlocked with the caller's passphrase; the manager is marked unlocked only if none failed")
-		} else {
-			c.Bad("C03-ATOMIC", key, c.Pos(f.Pos()), "the manager can be marked unlocked although a keystore rejected the passphrase (or not every keystore is tried)")
-		}
-	}
+	checkUnlockAllOrNothing(c, "C03-ATOMIC")
 	return Meta{
 		Explanation: "Credential gates as edge-cut dominance over every operation that reveals or changes secrets, a who-may-write rule on the stored credential, a cover rule for the eraser over all private-hierarchy fields (derived from the struct types), a lifetime rule for scrypt-derived key-decrypting keys, and the all-keystores structure of passphrase change and unlock.",
 		NotDecided:  "that zeroing is effective at machine level; cryptographic soundness of the digest check; behaviour after a restart as a value fact (C02).",
@@ -1038,4 +1002,46 @@ func checkSamePassphraseGates(c *Ctx, rule string) {
 		}
 	}
 
+}
+
+// checkUnlockAllOrNothing: Unlock applies useKeystore to every keystore with the caller's passphrase,
+// in the calling goroutine, and marks the manager unlocked only if none failed (shared by C03 and C05).
+func checkUnlockAllOrNothing(c *Ctx, rule string) {
+	if f := c.MustFn(rule, "poc/wallet/keystore", "(*KeystoreManagerForPoC).Unlock"); f != nil {
+		key := "Unlock:all-or-nothing"
+		var use *ssa.Call
+		for _, cl := range callsIn(f, "(*"+tKMC+").useKeystore") {
+			if blockReentered(f, cl) {
+				use = cl
+			}
+		}
+		var setUnlocked []ssa.Instruction
+		for _, a := range fieldAccesses(f) {
+			if a.Kind == "store" && a.Type == tKMC && a.Field == "unlocked" {
+				setUnlocked = append(setUnlocked, a.In)
+			}
+		}
+		ok := use != nil && len(setUnlocked) > 0
+		if ok {
+			// a failed useKeystore returns; unlocked=true unreachable on its error edge
+			r := reach(f, use, errorEdgeCut(f, use, false), nil)
+			for _, s := range setUnlocked {
+				if r(s) {
+					ok = false
+				}
+			}
+			rangeOK := false
+			allInstrs(f, func(in ssa.Instruction) {
+				if rg, isR := in.(*ssa.Range); isR && backSlice(rg.X).hasField(tKMC, "managedKeystores") {
+					rangeOK = true
+				}
+			})
+			ok = ok && rangeOK && backSlice(use.Call.Args[2]).hasParam(f, "privPassphrase")
+		}
+		if ok {
+			c.OK(rule, key, c.Pos(f.Pos()), "every keystore is unlocked with the caller's passphrase; the manager is marked unlocked only if none failed")
+		} else {
+			c.Bad(rule, key, c.Pos(f.Pos()), "the manager can be marked unlocked although a keystore rejected the passphrase (or not every keystore is tried)")
+		}
+	}
 }
